@@ -3,6 +3,7 @@ import Driver.C20
 import Driver.C06
 import Driver.C07
 import Driver.C11
+import Driver.C09
 import Driver.C10
 import Driver.C12
 import Driver.C13
@@ -25,6 +26,7 @@ def dispatch (line : String) : String :=
     | "C06" => Driver.C06.handle kv
     | "C07" | "C08" => Driver.C07.handle prop kv
     | "C11" => Driver.C11.handle kv
+    | "C09" => Driver.C09.handle kv
     | "C10" => Driver.C10.handle kv
     | "C12" => Driver.C12.handle kv
     | "C13" => Driver.C13.handle kv
